@@ -24,7 +24,7 @@ THEOREMS = [
     'Px.Chain.C08_accept_shape', 'Px.Chain.C08_dup_last_wins', 'Px.Chain.C08_absent', 'Px.Chain.C08_response',
     'Px.Chain.C08_reject_conn', 'Px.Chain.C08_order_model', 'Px.Chain.C08_order',
     'Px.Chain.C08_strip_first', 'Px.Chain.C08_strip_pipeline', 'Px.Chain.C08_strip_later',
-    'Px.Chain.C08_no_smuggling', 'Px.Chain.C08_clean_build',
+    'Px.Chain.C08_no_smuggling', 'Px.Chain.C08_first_request_upgrade_still_stripped', 'Px.Chain.C08_clean_build',
 ]
 RULE = ('configured credentials x Proxy-Authorization variants (absent, other schemes, wrong / truncated / extended / '
         're-encoded tokens, blanks, parameters, duplicated lines, name and scheme casing, look-alike names) x methods '
@@ -109,6 +109,15 @@ def cred_lines(auth, rng, force=None):
     return k, [rng.choice(NAMES) + ':' + rng.choice(['', ' ', '  ', '\t']) + v]
 
 
+UPGRADE_OFFERS = [
+    ['Connection: Upgrade', 'Upgrade: websocket', 'Sec-WebSocket-Key: dGhlIHNhbXBsZSBub25jZQ==', 'Sec-WebSocket-Version: 13'],
+    ['Connection: upgrade', 'Upgrade: WebSocket'],
+    ['Connection: Upgrade, HTTP2-Settings', 'Upgrade: h2c', 'HTTP2-Settings: AAMAAABkAAQCAAAAAAIAAAAA'],
+    ['Connection: keep-alive, Upgrade', 'Upgrade: h2c'],
+    ['connection: UPGRADE', 'upgrade: TLS/1.2, HTTP/1.1'],
+    ['Upgrade: derp', 'Connection: Upgrade'],
+]
+
 METHODS = ['GET', 'POST', 'PUT', 'DELETE', 'HEAD', 'OPTIONS', 'PATCH', 'TRACE', 'PROPFIND', 'CONNECT', 'CONNECT']
 
 
@@ -164,6 +173,14 @@ def mk_run(rng, auth=None, force=None, bytewise=False):
     if bytewise:
         cuts = list(range(1, len(raw)))
     else:
+        cuts = c09.mk_cuts(rng, len(raw), 0.5)
+    if req['m'] != 'CONNECT' and rng.random() < 0.12 and not bytewise:
+        # the first request offers a protocol upgrade (websocket / h2c); the origin need not take it, and the
+        # later requests of the connection are ordinary ones that must still lose their proxy headers
+        req['h'] += rng.choice(UPGRADE_OFFERS)
+        req['v'] = 'HTTP/1.1'
+        kind = kind + '+upgrade-offer'
+        raw = req_bytes(req)
         cuts = c09.mk_cuts(rng, len(raw), 0.5)
     evs = [['F', req, rng.random() < 0.95, cuts]]
     if rng.random() < 0.08 and not bytewise:
@@ -365,6 +382,15 @@ def corpus():
                    'evs': [['F', base('GET', good), True, [9], [two]], ['C', three, [30], [four]], ['CE']]})
         cs.append({'auth': auth, 'dis': [], 'plugins': plugins, 'vk': 'packed',
                    'evs': [['F', base('POST', good + ['Content-Length: 3']) | {'b': 'abc'}, True, [], [two, three]], ['CE']]})
+    # first request with an upgrade offer, then ordinary authenticated follow-ups (one per write, and packed)
+    for offer in UPGRADE_OFFERS:
+        for plugins in ([], rec):
+            cs.append({'auth': auth, 'dis': [], 'plugins': plugins, 'vk': 'upgrade-offer',
+                       'evs': [['F', base('GET', good + offer), True, []],
+                               ['U', b'HTTP/1.1 200 OK\r\nContent-Length: 2\r\n\r\nok'.hex()], ['FL'],
+                               ['C', two, []], ['C', three, [25], [four]], ['CE']]})
+        cs.append({'auth': auth, 'dis': [], 'plugins': rec, 'vk': 'upgrade-offer',
+                   'evs': [['F', base('GET', good + offer), True, [11], [two, three]], ['C', four, []], ['UE']]})
     for n in (64, 128):
         for lines in ([], ['Proxy-Authorization: Basic ' + c[:-1]], good):
             cs.append({'auth': auth, 'dis': [], 'plugins': rec, 'vk': 'recvbuf', 'rbuf': n,
